@@ -474,12 +474,20 @@ func runCase(h *verifx.H, i int, r *verifx.Rng) {
 		midFinish = r.Intn(nops)
 	}
 
+	// Every op draws its inputs from its own PRNG derived from (case, op index), and the state-dependent choices
+	// (finish capacity relative to the current size, permutations) from yet another one: the sequence of events of a
+	// case is a function of the seed alone even though the outcomes of the code under test (which key a draw hits)
+	// depend on Go's randomised map iteration order and may differ between two runs.
+	base := r.U64()
 	for op := 0; op < nops; op++ {
+		r := verifx.NewRng(base + uint64(op+1)*0x9E3779B97F4A7C15)
+		sr := verifx.NewRng(base*3 + uint64(op)*0xBF58476D1CE4E5B9 + 17)
+		g.r = r
 		if op == midFinish {
-			doFinish(h, r, rw, tot)
+			doFinish(h, sr, rw, tot)
 		}
 		if r.Chance(1, 30) {
-			doReorder(h, r, rw)
+			doReorder(h, sr, rw)
 		}
 		capacity := capFixed
 		if capVary {
@@ -605,7 +613,7 @@ func runCase(h *verifx.H, i int, r *verifx.Rng) {
 		tot.add(e)
 		checkTotals(h, fmt.Sprintf("after write %d", op), tot, postTop, postTail)
 	}
-	doFinish(h, r, rw, tot)
+	doFinish(h, verifx.NewRng(base*3+999983), rw, tot)
 	if evictedAny {
 		h.NonTrivial("resample")
 	}
